@@ -141,4 +141,25 @@ def r2(ctx):
         ctx.check(frag in t, "C13.R2", f"poly: {what}", po.where, ctx.construct(po, text=what), f"expected `{frag}`")
 
 
-RULES = [("C13.R1", r1), ("C13.R2", r2)]
+
+def r3(ctx):
+    """Recorded statistics survive spec operations: update / subset / differentiate only replace what they name (formula, structure);
+    the stateful wrapper forwards options per column."""
+    P = ctx.project
+    c04.wrapper_recursion(ctx, "C13.R3")
+    MS = P.cls("formulaic.model_spec.ModelSpec")
+    for name in ("subset", "differentiate"):
+        m = MS.methods[name]
+        for c in ast.walk(m.node):
+            if isinstance(c, ast.Call) and norm(c.func) == "self.update":
+                ctx.look()
+                keys = sorted(k.arg or "**" for k in c.keywords)
+                ok = set(keys) <= {"formula", "structure"}
+                ctx.check(ok, "C13.R3", f"ModelSpec.{name} keeps the recorded transform / encoder state", m.module.line(c), ctx.construct(m, text="update keys"),
+                          f"update(...) replaces {keys}: pruning or replacing `transform_state` loses the recorded statistics of nested transforms (they are re-fitted on new data)")
+        bad = [x for x in ast.walk(m.node) if isinstance(x, ast.Attribute) and x.attr in ("transform_state", "encoder_state")]
+        ctx.check(not bad, "C13.R3", f"ModelSpec.{name} does not touch the recorded state", m.where, ctx.construct(m, text="state untouched"),
+                  f"`{norm(bad[0]) if bad else ''}` is read/rewritten by {name}")
+
+
+RULES = [("C13.R1", r1), ("C13.R2", r2), ("C13.R3", r3)]
